@@ -373,8 +373,10 @@ func triage(fe *fontEntry, c *Case, got portResult, want refResult) class {
 	}
 	// unspecified: a runaway (AAT insertion loop, recursive lookups) stops when the operation /
 	// length budget is exhausted; where exactly is not specified (upstream expects "*" for such
-	// inputs, e.g. MORX-34).
-	if len(port) >= 16384 || len(ref) >= 16384 {
+	// inputs, e.g. MORX-34: the port stops near 16384 glyphs, libharfbuzz 6.0.0 near 2000).
+	// Precondition: an output of at least 16384 glyphs, or on a morx font more than 32 glyphs per
+	// input rune (+256).
+	if n := 32*c.Length + 256; len(port) >= 16384 || len(ref) >= 16384 || fe.traits.Morx && (len(port) > n || len(ref) > n) {
 		return class{sOpBudget, true}
 	}
 	// skew: Arabic fallback shaping synthesised from the cmap (script Arab, no Arabic GSUB
